@@ -104,8 +104,9 @@ WdTo(h, i, w, t) == [p \in DOMAIN w |-> IF p \in Tracked(h, i) \/ t[p] # NoCell 
 \* a file/directory conflict with a path outside the selection (git evicts it; dulwich's
 \* WorkTree.stage leaves both entries -- outside this property, see the evidence notes)
 StageOK(i, w, P, p) ==
-    \A q \in Covered(P, p) : w[q] # NoCell =>
-        \A r \in Present(i) : Clash(r, q) => r \in Covered(P, p)
+    /\ \A r \in Present(w) : ~Above(r, p)          \* git refuses a pathspec below a file or link
+    /\ \A q \in Covered(P, p) : w[q] # NoCell =>
+          \A r \in Present(i) : Clash(r, q) => r \in Covered(P, p)
 UnstageOK(h, i, p) ==
     /\ h[p] # NoCell \/ i[p] # NoCell
     /\ ~IsDir(h, p) /\ ~IsDir(i, p)
@@ -123,7 +124,7 @@ vars == <<head, index, wd, rep, n, last>>
 NoPath == <<>>
 Step(a, p, q, c) == last' = [act |-> a, p |-> p, q |-> q, cell |-> c]
 Observe == rep' = Report(head', index', wd')
-Tick == n < MaxEdits /\ n' = n + 1
+Tick == last.act # "Init" /\ n < MaxEdits /\ n' = n + 1     \* the first step is a checkout
 Clean == rep = CleanReport
 
 Init ==
@@ -139,7 +140,7 @@ Checkout(t) ==
 
 \* branch switch: nothing staged, nothing modified; untracked files that are not in the way stay
 Switch(t) ==
-    /\ last.act # "Init" /\ "Switch" \in Acts /\ Tick
+    /\ "Switch" \in Acts /\ Tick
     /\ rep.add = {} /\ rep.del = {} /\ rep.mod = {} /\ rep.unstaged = {}
     /\ t # head
     /\ NoCollision(rep.untracked, t) /\ NoCollision(rep.untracked, head)
